@@ -1,5 +1,6 @@
 ----------------------------- MODULE MC_Auth_q -----------------------------
 EXTENDS MC_Auth
 c_NoDevs == {}
-c_CodeDevs == {"DEV_OracleSigIgnored", "DEV_ChallengeNoOwner", "DEV_OperatorBySender"}
+\* deviations of the current tree (DEV_OracleSigIgnored was repaired by 873f403)
+c_CodeDevs == {"DEV_ChallengeNoOwner", "DEV_OperatorBySender"}
 =============================================================================
